@@ -240,7 +240,20 @@ def main():
             tests, checks, plog, pto = kani.playback(h["name"], tmo + 600, "%s" % pid)
             fails = [t for t in tests if t["kind"] != "cover"]
             if not fails:
-                inconclusive.append("K harness %s failed (%s) but produced no counterexample (see %s)" % (short, fc, plog))
+                # Kani sometimes prints playback vectors for the cover witnesses only; such a vector may still drive the
+                # native build into the failed assertion - native reproduction is the criterion either way
+                rescued = False
+                for t in tests:
+                    outs = {prof: kani.native_replay(short, t["vals"], prof) for prof in ("dev", "release")}
+                    for o in outs.values():
+                        lab = o.get("label")
+                        if o.get("outcome") == "REPRODUCED" and lab in fc and lab.startswith(pid + "."):
+                            if not any(v["label"] == lab and v.get("harness") == h["name"] for v in violations):
+                                violations.append({"property": pid, "label": lab, "engine": "K", "harness": h["name"], "kani_check": lab,
+                                                   "vals": t["vals"], "native": outs, "detail": lab})
+                            rescued = True
+                if not rescued:
+                    inconclusive.append("K harness %s failed (%s) but produced no counterexample (see %s)" % (short, fc, plog))
                 continue
             for t in fails:
                 lab = t["label"]
